@@ -55,7 +55,14 @@ fn plain_actions() -> Vec<Action> {
 }
 
 fn framed_actions() -> Vec<Action> {
-    vec![Action::Print0, Action::FPrint("f".into()), Action::FPrintf("g".into(), vec![Fmt::Field(Field::NameNoStart)]), Action::Print]
+    vec![
+        Action::Print0,
+        Action::FPrint("f".into()),
+        Action::FPrintf("g".into(), vec![Fmt::Field(Field::NameNoStart)]),
+        Action::Print,
+        // a newline inside but not at the end: still needs framing by the rule
+        Action::Printf(vec![Fmt::Field(Field::NameNoStart), nl(), Fmt::Field(Field::SizeBytes)]),
+    ]
 }
 
 fn chain(items: &[Action]) -> Expr {
@@ -430,6 +437,17 @@ fn check(case: &Case, acc: &mut Acc) {
                 acc.violate(Violation::new("C16:destination-table", format!("{}: {e}", show(&case.items)), wit()));
                 return;
             }
+        }
+    }
+    if io.is_none() {
+        // plain mode: the port carries terminated lines, so every record must end in a newline
+        if let Some(r) = expected.iter().find(|r| !r.ends_with('\n')) {
+            acc.violate(Violation::new(
+                "C16:plain-mode-record-not-a-terminated-line",
+                format!("{}: plain output was chosen but a record is {r:?}, which is not a complete terminated line: records of different threads run together on the shared port", show(&case.items)),
+                wit(),
+            ));
+            return;
         }
     }
     let sys = Sys { progs: progs.clone(), expected, mutexes, ports };
